@@ -8,7 +8,16 @@ import DdoModel.Examples.SrflpDp
     (`impacted_true`), the ranking compares depths (`rank_eq`), the width is the product (`maxWidth_eq`).
     Stated, not proved (`def … : Prop`; the driver checks them pointwise on every generated case): `RubAdmissibleStmt` (for
     small ratios only: the bound as shipped is not admissible when two ratios collide as `f32`, `RubF32CounterexampleStmt`),
-    `RubAdmissibleExactRatioStmt`, `MergeOkStmt`, `DpExactStmt`, `DpExactPrefixStmt`. -/
+    `RubAdmissibleExactRatioStmt`, `MergeOkStmt`, `DpExactStmt`, `DpExactPrefixStmt`.
+    PROVED SINCE (`SrflpProofs*.lean`, summary in `SrflpProofsMain.lean`), each in a clearly named restricted form:
+    `mergeOk_partial` (`MergeOkStmt` for `n ≤ 64` and sets listed increasingly), `dpExact_partial` / `dpExactPrefix_partial`
+    (`DpExactStmt` / `DpExactPrefixStmt` for `n ≤ 64`), `rubAdmissible_exact_partial` (`RubAdmissibleExactRatioStmt` on exact
+    states, tables as `Srflp::new` builds them, `n ≤ 64`, sets listed increasingly), Smith's rule standalone
+    (`smith_rule_optimal`, `wct_swap_eq`), `wfRel_of_rub`.  The statements below are NOT theorems as written: `InstOk` bounds
+    neither `n ≤ 64` (`trans?` answers `none` for a department `≥ 64`, `trans` then leaves the state alone: with 65 departments
+    the root can "place" department 64 for ever at cost 0) nor ties `sl` / `sf` to the instance (`rubAdmissible_needs_tabSorted`,
+    kernel-checked), and `validB` accepts lists with repeated members (`must = [2, 2, 2]`), for which `MergeOkStmt` fails
+    (evaluated, `SrflpProofsMain.lean`).  None of this is reachable by the example (`Set64`, `Srflp::new`). -/
 namespace Ddo.Examples.SrflpModel
 open Ddo Ddo.Examples Ddo.Examples.Util
 
